@@ -150,6 +150,35 @@ def record_analysis(spec):
                     if s1 == 0:
                         continue
                     ev.append({"t": "enbw", "enbwq": qc(float(ref.ENBW[j]) * L / fs, 2 ** 16), "enbwx": qc(L * s2 / (s1 * s1), 2 ** 16)})
+            elif kind == "refbin":
+                # every sampled bin of the full analysis against the reference estimator called directly with that bin's own
+                # plan entry (f[j], L[j], D[j]) and an independently built window
+                from speckit import core
+                from speckit.utils import kaiser_alpha
+                order = spec["order"]
+                for j in idx:
+                    L = int(ref.L[j])
+                    if spec["win"] == "kaiser":
+                        w = np.kaiser(L + 1, kaiser_alpha(spec.get("psll", 120)) * np.pi)[:-1]
+                    elif spec["win"] == "hann":
+                        w = np.hanning(L)
+                    else:
+                        from scipy.signal import windows as spw
+                        w = getattr(spw, spec["win"])(L, sym=False)
+                    w = np.ascontiguousarray(w, dtype=np.float64)
+                    starts = np.ascontiguousarray(ref.D[j], dtype=np.int64)
+                    om = 2.0 * np.pi * float(ref.f[j]) / fs
+                    name = {-1: "_stats_win_only_csd", 0: "_stats_detrend0_csd", 1: "_stats_poly_csd", 2: "_stats_poly_csd"}[order]
+                    args = [np.ascontiguousarray(x), np.ascontiguousarray(y), starts, L, w, om]
+                    if order >= 1:
+                        args.append(core._build_Q(L, order))
+                    mxx, myy, mr, mi, m2 = (float(v) for v in getattr(core, name)(*args))
+                    sc = max(mxx, myy, 1e-300)
+                    ev.append({"t": "refbin", "q": [qc(float(ref.XX[j]) / sc), qc(float(ref.YY[j]) / sc), qc(float(ref.XY[j].real) / sc), qc(float(ref.XY[j].imag) / sc),
+                                                    qc(float(ref.M2[j]) / (sc * sc))],
+                               "x": [qc(mxx / sc), qc(myy / sc), qc(mr / sc), qc(mi / sc), qc(m2 / (sc * sc))],
+                               "s12": qc(float(ref.S12[j]) / (L * L)), "xs12": qc(float(np.sum(w)) ** 2 / (L * L)), "s2": qc(float(ref.S2[j]) / L), "xs2": qc(float(np.sum(w * w)) / L),
+                               "K": int(ref.K[j]), "nD": int(starts.size), "navg": int(ref.navg[j])})
             elif kind == "winsum":
                 # two Kaiser analyses with different side-lobe levels in the same process, same lengths:
                 # the stored window sums must be those of the window configured for each analysis
